@@ -74,8 +74,10 @@ def remove_empty_metadata(a: ast.AST) -> ast.AST:
             return False
         if n.func.id != "MetaData" or len(n.args) != 2:
             return False
-        d = ast.literal_eval(n.args[1])
-        return isinstance(d, dict) and len(d) == 0
+        # Look at the shape only: the block may hold things that cannot be evaluated (`inf`),
+        # and a user function of the same name inside a lambda is not ours to evaluate.
+        d = n.args[1]
+        return isinstance(d, ast.Dict) and len(d.keys) == 0
 
     def _clean(n: Any) -> Any:
         "Return `n` itself if nothing below it changes, otherwise a shallow copy with the changes"
